@@ -141,6 +141,7 @@ def run(chk):
         reqs.append(('encode_fields', [cc, [codec.ft_sx(s) for s in lay], [m for _n, _py, m in vals]]))
         live.append((job, fr))
     res = run_model(reqs)
+    kept_objs = {}
     for (job, fr), r in zip(live, res):
         v, p, q, ctx, cls, sid, lay, vals, cc, key, case = job
         chk.count('bytes', [v, p, fr.hex()[:300]], len(lay) > 0)
@@ -154,22 +155,26 @@ def run(chk):
             chk.violation('bytes', key + ':bytes', dict(case=dict(case, values=repr([(n, py) for n, py, _m in vals])[:600]), expected=exp.hex()[:600], observed=fr.hex()[:600]),
                           '%s at release %d is written as %s; the published protocol prescribes %s' % (NAMES[p], v, fr.hex()[:50], exp.hex()[:50]))
             continue
-        # reference bytes decoded by the real read
-        pk = cls(context=ctx)
-        rb = Buf(r[1])
-        try:
-            pk.read(rb)
-            def field_ok(nm, m, s):
-                got = getattr(pk, nm)
-                if s[0] in ('Byte', 'UnsignedByte'):
-                    return isinstance(got, int) and got % 256 == m[1] % 256
-                return c05.same(s, m, got)
-            bad = next((nm for (nm, py, m), s in zip(vals, lay) if not field_ok(nm, m, s)), None)
-            what = None if bad is None and rb.pos == len(r[1]) else ('field %s decoded wrongly' % bad if bad else 'read consumed %d of %d bytes' % (rb.pos, len(r[1])))
-        except Exception as ex:
-            what = 'read raised %s' % exn_name(ex)
-        if what:
-            chk.violation('bytes', key + ':read', dict(case=dict(case, bytes=r[1].hex()[:600]), observed=what), '%s at release %d: decoding the published byte layout: %s' % (NAMES[p], v, what))
+        # reference bytes decoded by the real read - into a fresh packet object, and into one kept per class and release that has
+        # decoded other packets before (a decoder may reuse its packet objects)
+        if (q, v) not in kept_objs:
+            kept_objs[(q, v)] = cls(context=ctx)
+        for pk, how in ((cls(context=ctx), ''), (kept_objs[(q, v)], ' into a packet object that decoded another packet before')):
+            rb = Buf(r[1])
+            try:
+                pk.read(rb)
+                def field_ok(nm, m, s):
+                    got = getattr(pk, nm)
+                    if s[0] in ('Byte', 'UnsignedByte'):
+                        return isinstance(got, int) and got % 256 == m[1] % 256
+                    return c05.same(s, m, got)
+                bad = next((nm for (nm, py, m), s in zip(vals, lay) if not field_ok(nm, m, s)), None)
+                what = None if bad is None and rb.pos == len(r[1]) else ('field %s decoded wrongly' % bad if bad else 'read consumed %d of %d bytes' % (rb.pos, len(r[1])))
+            except Exception as ex:
+                what = 'read raised %s' % exn_name(ex)
+            if what:
+                chk.violation('bytes', key + ':read', dict(case=dict(case, bytes=r[1].hex()[:600]), observed=what + how), '%s at release %d: decoding the published byte layout%s: %s' % (NAMES[p], v, how, what))
+                break
     # ---- the same frames through ONE context object whose protocol_version is reassigned between packets (what Connection
     #      does during version negotiation, and what multi-version tools do), in an order that hops between releases
     shared = ConnectionContext(protocol_version=rel[0])
